@@ -166,6 +166,21 @@ Theorem c19_close_progress : forall tr s,
 Proof. exact close_progress. Qed.
 Print Assumptions c19_close_progress.
 
+(* PARTIAL.  Full statement (DESIGN section 8, c19_same_results): "a jrpc2.Client whose transport is
+   jhttp.Channel against a jhttp.Bridge returns, for every call/notify/batch workload and every order in
+   which the HTTP responses arrive, what it returns over a direct connection".  That needs the client model
+   (C04: matching replies by id makes the arrival order irrelevant) and the bridge model (C18), which are not
+   part of this development yet.  Proved here is the channel's share: while the channel is open nothing is
+   discarded, and when all request goroutines have returned, Recv has yielded exactly the non-empty
+   (non-204) replies and Do errors, each exactly once, and no 204 -- the message multiset a direct
+   connection delivers.  The end-to-end comparison is done by the harness family hc:bridge. *)
+Theorem c19_same_results_partial : forall tr s,
+  run init tr = Some s -> ~ In HClose tr -> forallb is_done (gs s) = true ->
+  forall j, j < n_send tr ->
+    exists r, dos j tr = [r] /\ n_drain j tr = 0 /\ n_recv j tr = (if is204 r then 0 else 1).
+Proof. exact chan_delivers_all. Qed.
+Print Assumptions c19_same_results_partial.
+
 (* Without fix F11 (drain loop does not close bodies) the property is false. *)
 Theorem c19_refuted_without_F11 :
   exists s, run_cfg false init f11_witness = Some s /\ In HCloseDone f11_witness /\
